@@ -51,14 +51,23 @@ var traceResRe = regexp.MustCompile(`(?s)<<\s*"TRACE-RESULT",\s*(\d+),\s*"\[([^\
 // returns the indices (1-based) of rejected records. The trace spec prints
 // <<"TRACE-RESULT", Len(Trace), bad>> when it consumed the whole file.
 func validateTrace(r *ev.Run, module, cfg string, recs []interface{}, timeout time.Duration) (bad []int, ok bool) {
+	return validateTraceEnv(r, module, cfg, recs, timeout, nil)
+}
+
+// validateTraceEnv is validateTrace with additional environment (IOEnv) for the trace specification.
+func validateTraceEnv(r *ev.Run, module, cfg string, recs []interface{}, timeout time.Duration, env map[string]string) (bad []int, ok bool) {
 	path, err := writeNDJSON(recs)
 	if err != nil {
 		r.Inconclusive("cannot write trace: " + err.Error())
 		return nil, false
 	}
 	defer os.Remove(path)
+	tenv := map[string]string{"VERIF_TRACE": path}
+	for k, v := range env {
+		tenv[k] = v
+	}
 	res, err := tlc.Run(tlc.Options{SpecDir: SpecDir, Module: module, Config: cfg, Workers: 1,
-		Timeout: timeout, Env: map[string]string{"VERIF_TRACE": path}})
+		Timeout: timeout, Env: tenv})
 	if err != nil {
 		r.Inconclusive("tlc failed: " + err.Error())
 		return nil, false
